@@ -126,6 +126,7 @@ def run(prog: Program, rep: Report, tier: str):
                         "decided)", "KDSpecAugment masks by comparison against arange: in bounds by construction"]
     bounds(prog, rep)
     units(prog, rep)
+    call_units(prog, rep)
     ctx_truth(prog, rep)
     paired(prog, rep)
     inverse_patterns(prog, rep)
@@ -169,6 +170,64 @@ def _draws(fa: FA) -> Dict[str, Tuple[int, ast.Call]]:
                     and isinstance(y.func.value, ast.Attribute) and y.func.value.attr == "rng":
                 out[var] = (n, y)
     return out
+
+
+def call_units(prog: Program, rep: Report):
+    """Axis units across call boundaries: a width must not be handed to a parameter that is a height."""
+    rep.rule("G6.call-units", "where a geometry transform passes image extents to a function of the package, the unit of every such "
+             "argument (W / H: the two results of get_image_size in that order, also when splatted with *; the last two of a shape; "
+             "names bound from them) equals the unit of the parameter it is bound to (a parameter called height / h / img_h ... "
+             "is an H, one called width / w / img_w ... a W).  Swapped extents draw the row offset from the column range: on "
+             "non-square images the window leaves the image")
+    H_NAMES = ("height", "h", "img_h", "image_height", "img_height")
+    W_NAMES = ("width", "w", "img_w", "image_width", "img_width")
+    n = 0
+    for rel in FILES:
+        m = prog.raw.module(rel, required=False)
+        if m is None:
+            continue
+        for fi in list(prog.raw.all_functions([m])):
+            fa = fa_of(prog.raw, fi)
+            dims = _dims(fa)
+            for nn, c in fa.calls():
+                t = fa.sym.term(c, nn)
+                callee = None
+                if t[1][0] == "global":
+                    r = prog.raw.resolve_expr(fi.module, c.func) if isinstance(c.func, (ast.Name, ast.Attribute)) else None
+                    if r and r[0] == "func":
+                        callee = r[1]
+                if callee is None:
+                    continue
+                cps = callee.params()
+                units_args = []  # (position, unit, text)
+                pos = 0
+                for a in c.args:
+                    if isinstance(a, ast.Starred):
+                        v = a.value
+                        if isinstance(v, ast.Call) and (_n(v.func) == "get_image_size" or (
+                                isinstance(v.func, ast.Attribute) and v.func.attr == "get_image_size")):
+                            units_args += [(pos, "W", ast.unparse(a)), (pos + 1, "H", ast.unparse(a))]
+                            pos += 2
+                            continue
+                        break  # unknown arity: positions after it are unknown
+                    if _n(a) in dims:
+                        units_args.append((pos, dims[_n(a)], _n(a)))
+                    pos += 1
+                kw_units = [(k.arg, dims[_n(k.value)], _n(k.value)) for k in c.keywords if k.arg and _n(k.value) in dims]
+                for pos_, u, txt in units_args:
+                    if pos_ < len(cps):
+                        kw_units.append((cps[pos_], u, txt))
+                for pname, u, txt in kw_units:
+                    pu = "H" if pname in H_NAMES else ("W" if pname in W_NAMES else None)
+                    if pu is None:
+                        continue
+                    n += 1
+                    o = rep.decide(pu == u, "G6.call-units", fi, f"call:{callee.name}:{pname}",
+                                   f"{txt} ({u}) -> parameter '{pname}'",
+                                   f"{fi.qualname} passes {txt}, an image {'width' if u == 'W' else 'height'}, to the parameter "
+                                   f"'{pname}' of {callee.name}: rows and columns are exchanged (get_image_size returns (width, "
+                                   f"height))", line=c.lineno, clause="C14.1")
+    rep.floor("extent arguments checked against parameter units (informational)", n, 0)
 
 
 def bounds(prog: Program, rep: Report):
